@@ -16,7 +16,7 @@ func init() {
 }
 
 func rulesC16(c *Ctx, r *Report) {
-	r.explain("Decides: (START<END) each event appended in NewIndex is appended only where starts[i] < ends[i] is known from a dominating branch — with a sweep that adds at the start event and removes at the end event, an interval with start >= end would be added after its removal and reported for every later position; (GRD) every index/slice expression in the package is within bounds, in particular ends[i] under `range starts` by the length-equality guard, which also makes lists of different lengths panic; (FRESH/PURE) At returns nil or freshly allocated memory holding no reference into the index and never writes the index; (RO-INDEX) outside NewIndex nothing in the package stores into Index.idx or its elements; (MO) keys collected from the active-set map are sorted before use; (SORT-CMP) the event order is decided by comparisons only — no arithmetic on coordinates that could overflow — position first, ends before starts at equal positions; (SEARCH) At binary-searches for the first breakpoint > i and answers from the breakpoint before it, nothing for index 0. Not decided: sweep correctness as a whole (exactly the covering set), ascending order beyond 'passes a sort'. Added rules: (LEN-PANIC) the length comparison panics on the unequal edge and dominates every return; (SNAPSHOT) every piece stores a fresh key list of the active set; (COORD) coordinates meet only coordinates (no constants, arithmetic or narrowing); (MAKE-APPEND) the event list is not made with a length and then appended to; (MO) the sorted list is the result; SEARCH accepts the copy inline.")
+	r.explain("Decides: (START<END) each event appended in NewIndex is appended only where starts[i] < ends[i] is known from a dominating branch — with a sweep that adds at the start event and removes at the end event, an interval with start >= end would be added after its removal and reported for every later position; (GRD) every index/slice expression in the package is within bounds, in particular ends[i] under `range starts` by the length-equality guard, which also makes lists of different lengths panic; (FRESH/PURE) At returns nil or freshly allocated memory holding no reference into the index and never writes the index; (RO-INDEX) outside NewIndex nothing in the package stores into Index.idx or its elements; (MO) keys collected from the active-set map are sorted before use; (SORT-CMP) the event order is decided by comparisons only — no arithmetic on coordinates that could overflow — position first, ends before starts at equal positions; (SEARCH) At binary-searches for the first breakpoint > i and answers from the breakpoint before it, nothing for index 0. Not decided: sweep correctness as a whole (exactly the covering set), ascending order beyond 'passes a sort'. Added rules: (LEN-PANIC) the length comparison panics on the unequal edge and dominates every return; (SNAPSHOT) every piece stores a fresh key list of the active set; (COORD) coordinates meet only coordinates (no constants, arithmetic or narrowing); (MAKE-APPEND) the event list is not made with a length and then appended to; (MO) the sorted list is the result; SEARCH accepts the copy inline. (EVENTS-KEPT) the event list is only appended to, measured and sorted before the sweep: never cut, compacted or filtered.")
 	e := effFor(c)
 	rulesStartEnd(c, r)
 	at := c.fn("regions", "(*Index).At")
